@@ -643,11 +643,29 @@ func Project(doc bson.D, proj bson.D) (bson.D, error) {
 			}
 			switch v[0].Key {
 			case "$slice":
+				// the argument is validated whatever the document holds
+				if _, ok := wholeNumber(v[0].Value); !ok {
+					pair, ok := v[0].Value.(bson.A)
+					if !ok || len(pair) != 2 {
+						return nil, other("$slice argument")
+					}
+					_, ok1 := wholeNumber(pair[0])
+					l, ok2 := wholeNumber(pair[1])
+					if !ok1 || !ok2 || l < 0 {
+						return nil, other("$slice [skip, limit]")
+					}
+					if l == 0 {
+						return nil, outside("$slice with limit 0")
+					}
+				}
 				es = append(es, entry{p.Key, "slice", v[0].Value})
 			case "$elemMatch":
 				q, ok := v[0].Value.(bson.D)
 				if !ok {
 					return nil, other("$elemMatch")
+				}
+				if len(q) == 0 {
+					return nil, outside("$elemMatch without conditions")
 				}
 				es = append(es, entry{p.Key, "elem", q})
 				inc++
@@ -679,12 +697,17 @@ func Project(doc bson.D, proj bson.D) (bson.D, error) {
 		return nil, other("mixing inclusion and exclusion")
 	}
 	inclusion := inc > 0 || (inc == 0 && exc == 0 && idMode == "inc")
+	if inc == 0 && idMode == "inc" && len(proj) > 1 {
+		// {_id:1} next to exclusions or array operators only: MongoDB and lungo disagree on whether this is an
+		// inclusion projection; the reference does not decide it
+		return nil, outside("_id inclusion next to exclusions or array operators only")
+	}
 	var out bson.D
 	if inclusion {
 		// _id first unless excluded, then included paths in document order
 		var build func(src bson.D, prefix string) bson.D
 		build = func(src bson.D, prefix string) bson.D {
-			var res bson.D
+			res := bson.D{}
 			for _, e := range src {
 				full := prefix + e.Key
 				if prefix == "" && e.Key == "_id" {
